@@ -44,6 +44,7 @@ func main() {
 		only := fs.String("only", "", "comma separated case indices")
 		max := fs.Int("max", 0, "limit number of cases")
 		verifDir := fs.String("verif", "/verif", "verif dir")
+		racePhase := fs.Bool("race-phase", false, "supplementary race-detector phase: merge into the existing evidence file")
 		id := os.Args[2]
 		_ = fs.Parse(os.Args[3:])
 		if *tier == "" {
@@ -55,7 +56,7 @@ func main() {
 			os.Exit(2)
 		}
 		exe, _ := os.Executable()
-		o := run.Options{Seed: *seed, Tier: *tier, Workers: *workers, VerifDir: *verifDir, Exe: exe, MaxCases: *max}
+		o := run.Options{Seed: *seed, Tier: *tier, Workers: *workers, VerifDir: *verifDir, Exe: exe, MaxCases: *max, RaceLog: os.Getenv("VERIF_RACE_LOG"), RacePhase: *racePhase}
 		if *only != "" {
 			for _, s := range strings.Split(*only, ",") {
 				n, _ := strconv.Atoi(strings.TrimSpace(s))
